@@ -33,6 +33,12 @@ Corollary sample_count_values_stacks_unchanged : forall mode e script p p' err c
 Proof. exact symbolize_frame_projections. Qed.
 Print Assumptions sample_count_values_stacks_unchanged.
 
+(* line information is only attached: a location is returned untouched or with at least one line *)
+Theorem lines_only_attached : forall mode e script p p' err calls,
+  symbolize mode e script p = Out p' err calls -> lines_attached p p'.
+Proof. exact symbolize_lines_attached_lemma. Qed.
+Print Assumptions lines_only_attached.
+
 (* mappings that already carry function names, and the locations in them, are left alone unless
    force is requested *)
 Theorem symbolized_mappings_left_alone_unless_force : forall mode e script p p' err calls,
@@ -75,6 +81,10 @@ Print Assumptions frame_checker_sound.
 Theorem left_alone_checker_sound : forall p p', left_aloneb p p' = true -> left_alone p p'.
 Proof. exact left_aloneb_sound_lemma. Qed.
 Print Assumptions left_alone_checker_sound.
+
+Theorem lines_checker_sound : forall p p', lines_attachedb p p' = true -> lines_attached p p'.
+Proof. exact lines_attachedb_sound_lemma. Qed.
+Print Assumptions lines_checker_sound.
 
 Theorem names_checker_sound : forall p p', names_keptb p p' = true -> names_kept p p'.
 Proof. exact names_keptb_sound_lemma. Qed.
